@@ -208,6 +208,9 @@ def eval_command(cmd):
     """(status, stdout) of `sh -c cmd` in an empty scratch directory; @M@ is a scratch marker directory.
     Only for the pure command family of the generators (DESIGN.md D4)."""
     if cmd in _CMD_CACHE: return _CMD_CACHE[cmd]
+    if "\x00" in cmd:
+        # std::process::Command refuses an argument with an interior NUL: the directive fails
+        _CMD_CACHE[cmd] = (1, b""); return _CMD_CACHE[cmd]
     import tempfile
     d = tempfile.mkdtemp(prefix="vp-orc-", dir=os.environ.get("VP_TMP", "/dev/shm"))
     try:
@@ -228,10 +231,12 @@ def complete_oracles(projects):
     """phase 1: run the model with a permissive oracle to learn which command strings the sources really
     contain (continuation lines can extend a command); evaluate each once with sh; fill in p.cmds."""
     todo = [p for p in projects]
-    for p in todo: p.permissive = True; p.cmds = []
+    modes = [p.mode for p in todo]
+    # discover in Build mode: a verify sink would stop at the first (empty-output) mismatch and hide later commands
+    for p in todo: p.permissive = True; p.cmds = []; p.mode = 0
     outs = run_model([p.text() for p in todo])
-    for p, o in zip(todo, outs):
-        p.permissive = False
+    for p, o, m in zip(todo, outs, modes):
+        p.permissive = False; p.mode = m
         cmds = []
         for e in parse_obs(o)["C"]:
             c = unhx(e.split("@")[0]).decode("utf-8", "replace")
